@@ -333,3 +333,49 @@ M("C05", "client-offset-walk-buffer-stripped", "c2.py", _CLIENT,
   edits=[_IMPORT, ("c2.py", _CLIENT,
                    _CLIENT_WALK.format(start="0", test="len(data) - offset >= min_frame", hdr="data[offset : offset + 4]", cut="").replace(
                        "        data = self.output or b\"\"\n", "        data = (self.output or b\"\").rstrip()\n"))])
+
+
+# ================================================================================================ R7: a complete packet is not dropped
+# The conditions in front of the packet of a framing reader (branch edges that dominate its construction / its yield,
+# conditional expressions around it), read as predicates of the size of the task blob / of the decoded frame length, must hold
+# for every size >= 32 = one AES block + 16-byte signature (a plaintext of 0..15 bytes).  Seeded kind: minimum-size guard
+# `len(data) - 16 <= AES.block_size` (off by one) in the server reader.  The twins are guards that only turn away blobs /
+# frames that cannot hold a packet (malformed input, which the property does not talk about).
+_S_HEAD = "        data = self.output\n        if not data:\n            return\n"
+_S_READ = (
+    "        fobj = io.BytesIO(data)\n        ciphertext = fobj.read(len(data) - 16)\n        signature = fobj.read(16)\n"
+    "        yield EncryptedPacket(ciphertext, signature)\n"
+)
+T("C05", "twin-server-min-size-guard-one-block", "c2.py", _SERVER,
+  _S_HEAD + "        body_size = len(data) - 16\n        if body_size < AES.block_size:\n            return\n" + _S_READ)
+T("C05", "twin-server-min-size-guard-raises", "c2.py", _SERVER,
+  _S_HEAD + "        if 32 > len(data):\n            raise ValueError(\"task data too short\")\n" + _S_READ)
+T("C05", "twin-server-nested-size-test-slices", "c2.py", _SERVER,
+  "        data = self.output\n        if data is not None and len(data) >= 2 * 16:\n            yield EncryptedPacket(data[:-16], data[-16:])\n")
+T("C05", "twin-server-conditional-expression", "c2.py", _SERVER,
+  _S_HEAD + "        yield from ([] if len(data) < 32 else [EncryptedPacket(data[:-16], data[-16:])])\n")
+T("C05", "twin-server-guard-after-default", "c2.py", _SERVER,
+  "        data = self.output\n        if data is None:\n            data = b\"\"\n        if len(data) <= 16:\n            return\n" + _S_READ)
+T("C05", "twin-server-single-pass-loop", "c2.py", _SERVER,
+  "        data = self.output\n        while data:\n            fobj = io.BytesIO(data)\n            size = len(data)\n"
+  "            ciphertext = fobj.read(size - 16)\n            signature = fobj.read(16)\n            data = fobj.read()\n"
+  "            yield EncryptedPacket(ciphertext, signature)\n")
+M("C05", "server-min-size-guard-two-blocks", "c2.py", _SERVER,
+  _S_HEAD + "        if len(data) < 48:\n            raise ValueError(\"task data too short\")\n" + _S_READ, "C05.R7")
+M("C05", "server-nested-size-test-strict", "c2.py", _SERVER,
+  "        data = self.output\n        if data:\n            if len(data) > 2 * 16:\n                yield EncryptedPacket(data[:-16], data[-16:])\n", "C05.R7")
+M("C05", "server-yield-guarded-by-body-size", "c2.py", _SERVER,
+  _S_HEAD + "        fobj = io.BytesIO(data)\n        ciphertext = fobj.read(len(data) - 16)\n        signature = fobj.read(16)\n"
+  "        packet = EncryptedPacket(ciphertext, signature)\n        if len(data) - 16 > 16:\n            yield packet\n", "C05.R7")
+M("C05", "server-conditional-expression-strict", "c2.py", _SERVER,
+  _S_HEAD + "        yield from ([EncryptedPacket(data[:-16], data[-16:])] if len(data) > 32 else [])\n", "C05.R7")
+M("C05", "server-one-block-blob-ignored", "c2.py", _SERVER,
+  _S_HEAD + "        if len(data) == 2 * AES.block_size:\n            return\n" + _S_READ, "C05.R7")
+_C_READ = "            ciphertext = fobj.read(size - 16)\n"
+T("C05", "twin-client-frame-min-size-guard", "c2.py", _CLIENT,
+  _CLIENT.replace(_C_READ, "            if size < 2 * AES.block_size:\n                break\n" + _C_READ))
+M("C05", "client-one-block-frame-ends-loop", "c2.py", _CLIENT,
+  _CLIENT.replace(_C_READ, "            if size <= 32:\n                break\n" + _C_READ), "C05.R7")
+M("C05", "client-one-block-frame-not-yielded", "c2.py", _CLIENT,
+  _CLIENT.replace("            yield EncryptedPacket(ciphertext, signature)\n",
+                  "            if size - 16 > 16:\n                yield EncryptedPacket(ciphertext, signature)\n"), "C05.R7")
